@@ -141,3 +141,8 @@ def run(ctx):
     ctx.coverage["distinct_nontrivial"] = s["roundtrip"]["lossless"] + s["fromjson-bytes"]["values"] + s["fromjson-bytes"]["errors"]
     ctx.coverage["rule"] = "escape tables exhaustive over 1- and 2-byte strings; random Data trees (keys/strings over all byte values, numbers, nesting <= 5); parser input: every truncation of 60 documents, mutations of valid JSON, random byte strings, on plain and ASan+UBSan builds; non-trivial = lossless round trips + parses that yield a value or a clean error"
     ctx.assumptions += ["Data.node / Data.binary members are outside the model", "INTERPRETED atoms are numbers/true/false/null"]
+
+
+def replay(ctx, path):
+    import uvlib
+    return uvlib.generic_replay(ctx, path, [(None, "json", "json", None)])
